@@ -167,7 +167,7 @@ def run_part(ctx):
     per = {}
     for name in names:
         _PROG = name
-        viols, st = pysched.explore(_body, _check, traced, bound, ctx, setup=_setup, max_execs_per_shard=ctx.pick(3000, 100000))
+        viols, st = pysched.explore(_body, _check, traced, bound, ctx, setup=_setup, max_execs_per_shard=ctx.pick(3000, 100000), budget_s=ctx.pick(90, 170))
         ctx.add_violations(viols)
         total["executions"] += st.executions
         total["steps"] += st.steps
